@@ -183,12 +183,39 @@ func TestProp_Rendezvous(t *testing.T) {
 		ctx, cancel := context.WithCancel(context.Background())
 		defer cancel()
 		p := newProbe()
+		// "twice" (users mode, 1 case in 2): every body of the first round registers a cleanup that itself
+		// registers a cleanup (a shared release helper does that); the workers must all be usable again
+		// afterwards: a second barrier, for the iterations that follow, must open as well
+		twice := mode == "users" && rapid.Bool().Draw(rt, "twice")
+		var entered, inside2 atomic.Int64
+		open2 := make(chan struct{})
+		var once2 sync.Once
 		scenario := func(*f1testing.T) f1testing.RunFn {
 			return func(it *f1testing.T) {
 				p.enter(it, conc)
 				defer p.leave(it)
+				if twice && entered.Add(1) > int64(conc) {
+					// second round
+					if inside2.Add(1) >= int64(conc) {
+						once2.Do(func() { close(open2); cancel() })
+					}
+					select {
+					case <-open2:
+					case <-time.After(4 * time.Second):
+					}
+					inside2.Add(-1)
+					return
+				}
+				if twice {
+					it.Cleanup(func() { it.Cleanup(func() {}) })
+				}
 				if inside.Add(1) >= int64(conc) {
-					once.Do(func() { close(open); cancel() })
+					once.Do(func() {
+						close(open)
+						if !twice {
+							cancel()
+						}
+					})
 				}
 				select {
 				case <-open:
@@ -198,6 +225,9 @@ func TestProp_Rendezvous(t *testing.T) {
 			}
 		}
 		spec := &vlib.RunSpec{Mode: mode, Flags: flags, FileDir: dir, ScenarioFn: scenario, WaitTimeout: 20 * time.Second, Ctx: ctx}
+		if twice {
+			spec.WaitTimeout = 3 * time.Second // a worker that never comes back must not hold the check up for long
+		}
 		spec.Opts.Concurrency = conc
 		spec.Opts.MaxDuration = 5 * time.Second
 		spec.Opts.IgnoreDropped = true
@@ -215,6 +245,9 @@ func TestProp_Rendezvous(t *testing.T) {
 		}
 		desc := fmt.Sprintf("%s c=%d first-tick=%d flags=%v max-iterations=%d", mode, conc, first, flags, limit)
 		rcls := []string{"mode-" + mode}
+		if twice {
+			rcls = append(rcls, "second-round-after-nested-cleanup-registration")
+		}
 		if limit >= 1<<62 {
 			rcls = append(rcls, "limit-around-2^63-or-2^64")
 		}
@@ -230,6 +263,13 @@ func TestProp_Rendezvous(t *testing.T) {
 		if !opened {
 			rt.Fatalf("VERIF-VIOLATION C04: with %d requests pending the %d workers never executed at the same time within 5 s (at most %d did) (%s)",
 				first, conc, p.highWater.Load(), desc)
+		}
+		if twice {
+			select {
+			case <-open2:
+			default:
+				rt.Fatalf("VERIF-VIOLATION C04: the %d workers executed at the same time once, each registering a cleanup that registers a cleanup; for the iterations after that they never did again within 5 s (users mode: work is always pending) (%s)", conc, desc)
+			}
 		}
 	})
 }
